@@ -143,40 +143,65 @@ def _kill_pool(ex: ProcessPoolExecutor) -> None:
 # fork-isolated replay (pristine: the driver process never runs library code)
 # --------------------------------------------------------------------------
 def replay_isolated(modname: str, payload: dict, timeout_s: float = 30.0) -> List[dict]:
-    """Run mod.replay(payload) in a forked child; returns its violations."""
+    """Run mod.replay(payload) in a forked child (own session); returns its violations."""
+    import select
+    import struct
+
     r, w = os.pipe()
     pid = os.fork()
     if pid == 0:
-        code = 0
         try:
             os.close(r)
-            faulthandler.dump_traceback_later(timeout_s, exit=True)
+            os.setsid()
             mod = importlib.import_module(modname)
             if hasattr(mod, "worker_init"):
-                mod.worker_init()
+                mod.worker_init()  # forks the golden zygote: before any watchdog is armed
+            signal.signal(signal.SIGALRM, signal.SIG_DFL)
+            signal.alarm(int(timeout_s) + 1)
             out = mod.replay(payload)
             data = json.dumps({"ok": True, "violations": out}, default=repr).encode()
         except BaseException as exc:  # noqa: BLE001
             data = json.dumps({"ok": False, "error": "".join(traceback.format_exception(exc))}).encode()
-            code = 0
         try:
-            with os.fdopen(w, "wb") as fd:
-                fd.write(data)
+            buf = struct.pack("<I", len(data)) + data
+            while buf:
+                n = os.write(w, buf)
+                buf = buf[n:]
         finally:
-            os._exit(code)
+            os._exit(0)
     os.close(w)
-    chunks = []
-    with os.fdopen(r, "rb") as fd:
+    raw = b""
+    deadline = time.monotonic() + timeout_s + 5
+    want = None
+    try:
         while True:
-            b = fd.read(65536)
+            left = deadline - time.monotonic()
+            if left <= 0:
+                break
+            ready, _, _ = select.select([r], [], [], left)
+            if not ready:
+                break
+            b = os.read(r, 1 << 16)
             if not b:
                 break
-            chunks.append(b)
-    _, status = os.waitpid(pid, 0)
-    raw = b"".join(chunks)
-    if not raw:
-        raise HarnessError(f"replay child died (status {status})")
-    res = json.loads(raw)
+            raw += b
+            if want is None and len(raw) >= 4:
+                (want,) = struct.unpack("<I", raw[:4])
+            if want is not None and len(raw) >= 4 + want:
+                break
+    finally:
+        os.close(r)
+        try:
+            os.killpg(pid, signal.SIGKILL)  # the child, its zygote and any golden grandchild
+        except (ProcessLookupError, PermissionError):
+            pass
+        try:
+            os.waitpid(pid, 0)
+        except ChildProcessError:
+            pass
+    if want is None or len(raw) < 4 + want:
+        raise HarnessError("replay child died or timed out")
+    res = json.loads(raw[4 : 4 + want])
     if not res["ok"]:
         raise HarnessError("replay child raised:\n" + res["error"])
     return res["violations"]
